@@ -236,7 +236,13 @@ def run_history(ctx, case):
                             return
                         ctx.count("failed_queries")
                         had_failed = True
-                    ret = w.get_cursor_vertical_diff()
+                    try:
+                        ret = w.get_cursor_vertical_diff()
+                    except Exception as ex:  # noqa
+                        ctx.judge(False, case, ("C18", "hist-raise", rows, top0, d, k),
+                                  "C18:movement-not-conserved-after-failed-query" if had_failed else "C18:query-raises",
+                                  "a cursor query answered by the terminal alone", repr(ex), {"step": k}, True)
+                        return
                     accounted = (w.top_usable_row - top0) + ret + nested_ret[0]
                     log.append([h, cp[0], d, nested, top0, w.top_usable_row, ret, nested_ret[0]])
                     sig = ("C18", "hist", rows, top0, d, total[0], nested, h, cp[0], bool(st.get("failed_first")))
